@@ -191,3 +191,50 @@ def run(rep: Report, prog: Program, tier: str) -> None:
 
     memo_is_pure(rep, "R20.7", prog, ("redress.extras", "redress.strategies", "redress.classify"))
     rep.floor("R20.7", 1)
+
+    rep.rule("R20.8", "the hint is the header's value: every non-None result of _lookup_header is str(V) where V was obtained under the requested name - the answer of headers.get(name) / get(name.lower()), or the value half of an (key, value) pair whose key matched the name ignoring case on that path; never the key, never another pair's value")
+    lf = prog.func(f"{H}:_lookup_header")
+    rep.analysed(lf.qual)
+    lpos = lf.positional_params()
+    NAME = ("param", lpos[1] if len(lpos) > 1 else "name")  # the requested header name: second parameter, whatever it is called
+    n_lk = 0
+    seen_lk: set = set()
+    for p in E.paths(lf):
+        if p.exit[0] != "return" or p.exit[1] == ("const", None):
+            continue
+        r = p.exit[1]
+        keyr = (repr(r), tuple(repr(a) for a, pol, _ in p.conds if "lower" in repr(a) and pol))
+        if keyr in seen_lk:
+            continue
+        seen_lk.add(keyr)
+        n_lk += 1
+        rep.instance("R20.8", f"_lookup_header|{show(r)[:60]}")
+        problem = None
+        if not (r[0] == "pure" and r[1] == "str" and len(r[2]) == 1):
+            problem = f"returns {show(r)}, not str(<value found>)"
+        else:
+            XV = r[2][0]
+            matched = [a[2][2][0][2][0] for a, pol, _ in p.conds if pol and a[0] == "cmp" and a[1] == "==" and a[3] == ("pure", ".lower", (NAME,), ()) and a[2][0] == "pure" and a[2][1] == ".lower" and a[2][2] and a[2][2][0][0] == "pure" and a[2][2][0][1] == "str"]
+            if XV[0] == "fresh":
+                if not matched:
+                    problem = f"returns the loop variable {show(XV)} without a key match on this path"
+                elif XV in matched:
+                    problem = f"returns str({show(XV)}): the header's *name* (the variable compared with the requested name), not its value"
+                elif not any(k[0] == "fresh" and k[1] == XV[1] for k in matched):
+                    problem = f"returns {show(XV)}, which does not belong to the pair whose key matched"
+            elif XV[0] == "pure" and XV[1] == ".get":
+                if len(XV[2]) < 2 or XV[2][1] not in (NAME, ("pure", ".lower", (NAME,), ())):
+                    problem = f"looks up {show(XV)}: not the requested name"
+            elif XV[0] == "call":
+                ev = next((e for e in p.calls(pure=None) if e.result == XV), None)
+                if ev is None or not ev.args or ev.args[0] not in (NAME, ("pure", ".lower", (NAME,), ())):
+                    problem = f"returns {show(XV)}: not a lookup of the requested name"
+            else:
+                problem = f"returns str({show(XV)}): not a value found under the requested name"
+        if problem:
+            rep.fail("R20.8", f"_lookup_header|{problem[:50]}", f"_lookup_header {problem}", where=lf.where(), function=lf.qual, path=p.describe())
+        else:
+            rep.ok("R20.8")
+    if n_lk < 3:
+        raise AnalysisError(f"R20.8: only {n_lk} value-returning paths of _lookup_header")
+    rep.floor("R20.8", 3)
